@@ -31,7 +31,7 @@ var propTable = map[string]propInfo{
 		"'formatting the formatted output reproduces it' needs parse-then-print and the trivia round trip (Meta M2); not mechanised",
 		"separator safety without semicolons (`if (a) b else c`, statements starting with ( [ - or a backtick) is not covered by a contract in this revision; cleanEmptyLines is only verified for safety (its effect inside multi-line literals is a known weakness, see DESIGN)",
 	}},
-	"C08": {"proof", "Position invariant J (the mapper's cursor equals the generated position of the writer's write history, where a string write advances like AdvanceString and a byte write is a column step or a line break) is required and ensured by every code-writer method and every printer, in compact and pretty mode (after the fix that routes layout whitespace and comments through the mapper); AddMapping/AddNamedMapping flush deferred layout first and record exactly (current generated position -> given source position[, name]); in every printer the mapping of a token is immediately followed by that token's text ([syntax] sequences), identifiers record a named mapping with their own name; Compile attaches a fresh mapper per call. Token start positions are C10's, the mappings string is C09's.", []string{
+	"C08": {"proof", "Position invariant J (the mapper's cursor equals the generated position of the writer's write history, where a string write advances like AdvanceString and a byte write is a column step or a line break) is required and ensured by every code-writer method and every printer, in compact and pretty mode (after the fix that routes layout whitespace and comments through the mapper); AddMapping/AddNamedMapping only request a mapping (nothing is written, nothing recorded); WriteString/WriteRune record the requested mapping after the deferred layout and after a separating space, and their [recorded] postcondition says that the segment's generated position advanced over the token text is the mapper's cursor, i.e. the segment starts exactly at the token's first character and points at the requested source position[, name] (after the fix that defers the mapping to the token write); layout-only methods, emit and comment replay keep the request and record nothing; in every printer the mapping request of a token is immediately followed by that token's text ([syntax] sequences), identifiers record a named mapping with their own name; Compile attaches a fresh mapper per call. Token start positions are C10's, the mappings string is C09's.", []string{
 		"generated positions are defined per write (a '\\r' ending one write and a '\\n' starting the next count as two breaks); columns are bytes, i.e. the proof assumes ASCII output (Source Map v3 counts UTF-16 units)",
 		"cleanEmptyLines (pretty mode) may trim leading/trailing whitespace after the map was produced; its effect on positions is not covered",
 		"single characters are written with WriteRune only for ASCII other than CR (precondition checked at every call site)",
@@ -47,7 +47,7 @@ var propTable = map[string]propInfo{
 		"functions stored in the parser's function-typed fields obey the slot contracts: checked at every store inside the package; plugin interceptors are assumed pass-through and plugin createExpr callbacks are assumed to touch parser state only through the thunk they are given (hypotheses of C04/C05)",
 	}},
 	"C11": {"proof", "Safety obligations (nil dereference, index/slice bounds, nil-map store, failed type assertion, explicit panic, nil interface receiver) are generated without annotation for every instruction of every function of packages lexer, parser, ast, compiler and debug and discharged under the proved invariants (lexInv, parserInv, cwInv) -- for the printers under their one-level well-formedness hypotheses [wf]. The error contract is stated on the real functions: ParseProgram returns a non-nil program, err != nil iff len(errors) > 0, and no statement list (program or block) contains a nil or typed-nil entry (the engine's (tag,payload) interface model distinguishes typed nil from nil); the error list only grows; every statement/expression/prefix/infix parse step returns nil only after recording an error (slot contracts, incl. interceptor wrappers and registered operators); every error is recorded through AddErrorAtToken, whose precondition demands a token that came from Lexer.NextToken (ghost predicate LexTok), so every error range is a token range; and every node-building parse function proves the [wf] clause: if it recorded no error, the node it returns has all mandatory children -- exactly the hypothesis under which that node's printer is proved not to panic.", []string{
-		"termination of the mutually recursive parse functions is not proved (lexer termination is, see C10); reported as unproved, not assumed",
+		"termination: every loop of the parser has a proved variant over parserMeasure (bytes behind the lexer cursor plus non-EOF look-ahead tokens; NextToken decreases it while the current token is not EOF, nothing increases it, the end of input is sticky) -- ParseProgram, ParseBlockStatement, parameter/argument/property lists, and the precedence-climbing loop (after the fix that stops at a token without an infix function; hypothesis: no infix operator is registered on EOF); lexer loops see C10. Termination of the mutual recursion between parse functions (bounded by nesting depth) is not proved and not assumed",
 		"'no error => every node satisfies its printer's [wf] hypothesis => compiling never panics' composes the per-node [wf] clauses by induction over the tree (Meta M2); the per-node facts are mechanised on both sides",
 		"plugin hypotheses: interceptors are pass-through; createExpr callbacks return a node (never nil) and act only through the thunk they are handed",
 		"LexTok is a ghost predicate whose only introduction rule is the definitional postcondition of Lexer.NextToken",
